@@ -162,6 +162,9 @@ def cases(tier, seed):
         yield {"k": "reinit", "gen": (4, 5)[i % 2], "seed": rnd.randrange(1 << 30),
                "kinds": rnd.choice([["zone"], ["ac"], ["timer"], ["zone", "ac", "timer"],
                                     ["error", "version", "zone"]])}
+    for i in range(6 if tier == "quick" else 600):
+        yield {"k": "dropref", "gen": (4, 5)[i % 2], "seed": rnd.randrange(1 << 30),
+               "n": rnd.randint(3, 12)}
     for i in range(24 if tier == "quick" else 3000):
         yield {"k": "slow", "gen": rnd.choice((4, 5)), "seed": rnd.randrange(1 << 30),
                "n": rnd.randint(2, 6), "delay": rnd.choice([0.5, 6.5, 12.0]),
@@ -468,7 +471,64 @@ def run_reinit(case):
             "sample": {"gen": gen, "kinds": case["kinds"]}}
 
 
+def run_dropref(case):
+    """The application keeps the air-conditioner and zone objects it was given, but not the
+    AirTouch object itself (no shutdown): what it still holds keeps following the console."""
+    import gc
+    gen = case["gen"]
+    rnd = random.Random(case["seed"])
+    viol, obs = [], {}
+
+    async def main(loop, net, log):
+        w = AW.ModelWorld(gen, loop, net, log, installation(gen, rnd))
+        if await w.init_and_sync() is not True:
+            viol.append({"mechanism": "init-failed-on-plain-console", "detail": {}})
+            return
+        acs = list(w.at.air_conditioners)
+        zones = {z.zone_id: z for a in acs for z in a.zones}
+        w.at = None            # the harness' own reference
+        gc.collect()
+        for i in range(case["n"]):
+            raw = make_frame(gen, rnd, w, None, obs, kinds=["ac", "zone", "timer"])
+            c = w.conn()
+            if c is None:
+                viol.append({"mechanism": "connection-lost-after-the-airtouch-object-was-dropped",
+                             "detail": {"frame_index": i}})
+                return
+            w.console.send(c, raw)
+            await quiesce(loop)
+            if i % 2:
+                gc.collect()
+            w.feed()
+            exp = w.model.expected()
+            snap = {"acs": {a.ac_id: H.snapshot_ac(a) for a in acs},
+                    "zones": {zid: H.snapshot_zone(z) for zid, z in zones.items()},
+                    "model": exp["model"]}
+            for k in ("update_available", "console_versions"):
+                if k in exp:
+                    snap[k] = exp[k]
+            dd = RM.diff(exp, snap)
+            obs["frames_compared_without_the_airtouch_object"] = obs.get(
+                "frames_compared_without_the_airtouch_object", 0) + 1
+            for path, ev, gv in dd[:3]:
+                viol.append({"mechanism": "getter-differs-from-latest-report-after-the-"
+                             "airtouch-object-was-dropped:" + path.split(".")[-1],
+                             "detail": {"path": path, "expected": ev, "got": gv, "frame": raw,
+                                        "frame_index": i}})
+            if dd:
+                return
+
+    _, log, st = H.run(main)
+    if st != "ok":
+        viol.append({"mechanism": "model-world-hang", "detail": {"status": st}})
+    n = obs.get("frames_compared_without_the_airtouch_object", 0)
+    return {"violations": H.cap(viol), "evals": n, "decided": n, "distinct": n, "obs": obs,
+            "sample": {"gen": gen, "dropref": True}}
+
+
 def run_case(case):
+    if case.get("k") == "dropref":
+        return run_dropref(case)
     if case.get("k") == "slow":
         return run_slow(case)
     if case.get("k") == "reinit":
